@@ -344,6 +344,10 @@ def modelled_members_and_casts():
  'fn main() { let a: ?int = ?3; let b: ?int = none; println(a.is_some(), a.is_none(), b.is_some(), b.is_none(), a.unwrap(), a.unwrap_or(9), b.unwrap_or(9), a.expect("no"), a.to_string(), b.to_string(), (?[1, 2]).to_string(), (??1).to_string()); try { println(b.unwrap()); } catch e { println(e.message, e.line, e.column); } println(b.expect("expected a value")); }',
  # --- any-objects: get / set / keys / get_type / to_string; missing keys; self containment
  'fn main() { let o = new { ? }; o.set("i", 1); o.set("f", 1.5); o.set("b", true); o.set("s", "x"); o.set("l", [1]); o.set("o", new { a: 1 }); o.set("d", new { ? }); o.set("n", ?1); o.set("r", 1..2); for k in o.keys() { println(k, o.get_type(k)); } println(o.to_string() == o.to_string(), o.get("i"), o.get("none")); println(o.get_type("missing")); }',
+ # whole floats beyond the int64 range through to_json / to_json_indent (the forced `.0`), also nested
+ 'fn main() { let a = 10.0 ** 19.0; let b = 9223372036854775808.0; let c = 0.0 - 2.0 ** 63.0; let d = 2.0 ** 100.0; let o = new { a: a, b: b, c: c, d: d, e: ?a, l: [a, d, 0.5] }; println(o.to_json()); println(o.to_json_indent()); println([a, b, c, d].to_json(), a.to_string(), d); }',
+ # compound assignment whose target contains an effectful sub-expression: the target is evaluated once
+ 'let n = 0;\nfn next() -> int { n += 1; println("next", n); n - 1 }\nfn get(o: { hits: int }) -> { hits: int } { println("get"); o }\nfn main() { let l = [1, 2, 3]; l[next()] += 5; l[next()] *= 2; println(l, n); let o = new { hits: 0 }; get(o).hits += 1; get(o).hits -= 3; println(o, n); let m = [[1, 2], [3, 4]]; m[next() - 2][next() - 3] += 10; println(m, n); }',
  'fn helper(x: int) -> int { x + 1 } fn main() { let o = new { ? }; o.set("u", helper); o.set("l", fn(x: int) -> int { x }); let nn: ?int = none; o.set("non", nn); o.set("lf", [helper]); o.set("of", new { f: helper }); for k in o.keys() { println(k, o.get_type(k)); } }',
  'fn main() { let o = new { ? }; let p = new { ? }; p.set("o", o); try { o.set("p", p); } catch e { println(e.message); } try { o.set("l", [?p]); } catch e { println(e.message); } try { o.set("me", o); } catch e { println(e.message, e.line, e.column); } o.set("ok", [p.keys()]); println(o, p); let t = new { inner: p }; try { o.set("t", t); } catch e { println("t", e.message); } println(o.keys()); }',
  'fn main() { let o = new { a: 1, b: 2 }; let k = "a"; let a: int = o[k]; let b: int = o["b"]; println(a, b); let d = new { ? }; d.set("x", 5); let x: int = d["x"]; println(x); k = "zz"; let z: int = d[k]; println(z); }',
@@ -444,6 +448,54 @@ def module_programs():
     return [(m, mods, None) for m, mods in out]
 
 
+def global_init_failures():
+    """Global initializers that the analyzer accepts as constant and that throw when they are evaluated (G1): division and
+    remainder by zero, negative shift counts, indices outside a list / string literal; bare and nested in the constant
+    constructs (group, block, list, object, option, range, prefix, cast, short-circuit operands). In the entry module and
+    in an imported module (also two imports deep), with and without a try/catch in main: the initializers run before main,
+    nothing catches them, the program ends with that fatal exception and without output on both backends (the host gets
+    the exception back; it must not be taken down). The last programs are the non-throwing neighbours."""
+    faults = ["1 / 0", "1 % 0", "1.0 / 0.0", "1 << -1", "1 >> -1", "[1, 2][5]", "[1, 2][-5]", "[1, 2][2]", '"abc"[3]', '"abc"[-4]',
+              "[[1], [2]][1][3]", "(new { a: [1] }).a[2]"]
+    mains = ["fn main() { println(\"start\"); println(g); }",
+             "fn main() { println(\"start\"); try { println(g); } catch e { println(\"caught\", e.message); } println(\"end\"); }"]
+    out = []
+    for f in faults:
+        for m in mains:
+            out.append(f"let g = {f};\n{m}")
+            out.append((f"import {{ g }} from lib;\n{m}", {"lib": f"pub let g = {f};\nfn main() {{ }}"}, None))
+    nested = ["(1 / 0)", "{ 1 / 0 }", "[1, 1 / 0]", "new { a: 1 % 0 }", "?(1 / 0)", "(1 / 0)..3", "0..(1 % 0)", "-(1 / 0)", "!(1 / 0 == 0)",
+              "(1 / 0) as float", "[1, 2][1 / 0]", "1 / 0 == 1 / 0", "true && 1 / 0 == 1", "false || 1 % 0 == 1", "1 + 2 * (3 / (2 - 2))",
+              "[1, 2][5] + 1 / 0", "[[1, 2][7]]"]
+    for f in nested:
+        out.append(f"let g = {f};\nfn main() {{ println(\"start\"); println(g); }}")
+    out += [
+        # the failing initializer between good ones; main does not read it; a function and an event function read it
+        "let ok = 5;\nlet g = 1 / 0;\nlet after = 6;\nfn main() { println(ok, after); }",
+        "let g = 1 / 0;\nfn helper() -> int { g }\nfn main() { try { println(helper()); } catch e { println(\"caught\", e.message); } }",
+        "let g: int = 5 % 0;\nevent fn ev(a: int) { println(g); }\nfn main() { println(1); }",
+        "let l: [int] = [];\nlet h = [1][1];\nfn main() { l.push(1); println(l); }",
+        "let a = [1, 2][5];\nlet b = 1 / 0;\nfn main() { println(a, b); }",
+        # an imported module that fails although nothing of the failing global is used; two imports deep; the entry
+        # module's own globals come after the imports
+        ("import { h } from lib;\nfn main() { println(\"start\", h); }", {"lib": "let g = 1 / 0;\npub let h = 2;\nfn main() { }"}, None),
+        ("import { f } from lib;\nfn main() { try { println(f()); } catch e { println(\"caught\"); } }",
+         {"lib": "let g = [1, 2][9];\npub fn f() -> int { g }\nfn main() { }"}, None),
+        ("import { h } from lib;\nfn main() { println(h); }",
+         {"lib": "import { k } from deep;\npub let h = 2;\nfn main() { }", "deep": "pub let k = 1 << -1;\nfn main() { }"}, None),
+        # (at most ONE module of a program fails: which exception wins when two modules fail depends on the order in which
+        # the modules are initialised, and that order differs between the backends — reported as a finding of its own)
+        ("import { h } from lib;\nlet own = 1 % 0;\nfn main() { println(h, own); }", {"lib": "pub let h = 3;\nfn main() { }"}, None),
+        # a module that is not imported is not initialised
+        ("let l = [1, 2];\nfn main() { println(l); }", {"other": "let g = 1 / 0;\nfn main() { }"}, None),
+        # non-throwing neighbours: short-circuit skips the faulting operand, wrapping arithmetic, in-range indices
+        "let g = false && 1 / 0 == 1;\nlet h = true || 1 / 0 == 1;\nfn main() { println(g, h); }",
+        "let a = 9223372036854775807 + 1;\nlet b = (0 - 9223372036854775807 - 1) / -1;\nlet c = (0 - 9223372036854775807 - 1) % -1;\nlet d = 1 << 64;\nlet e = 2 ** 64;\nfn main() { println(a, b, c, d, e); }",
+        "let a = [1, 2][-2];\nlet b = [1, 2][1];\nlet c = \"abc\"[-3];\nlet d = 7 / 2;\nlet e = 7 % -2;\nlet f = 1.0 / 4.0;\nfn main() { println(a, b, c, d, e, f); }",
+    ]
+    return out
+
+
 def all_families():
     return {
         "tour": tour(),
@@ -459,6 +511,7 @@ def all_families():
         "pending": pending_operands(),
         "lambdas": lambdas() + lambda_scope_programs(),
         "features": feature_corpus(),
+        "global_init_failures": global_init_failures(),
     }
 
 
@@ -570,4 +623,98 @@ def singleton_cases():
     add("import { note, dump } from journal;\n$Own = int;\nfn main() { println(note(\"a\")); println(note(\"b\"), $Own); dump(); }",
         [None, {"$Cnt": 100, "$Log": ["z"], "$Own": 1}, {"$Own": 1, "$Log": ["z"], "$Cnt": 100}, {"$Log": ["y", "z"]}],
         mods={"journal": m2})
+    return out
+
+
+def spawn_programs():
+    """`spawn` in every shape (S1; judged for "returns to the host" only: the output order of spawned cores is not
+    deterministic and the interpreter runs a spawn as a plain call). What the analyzer accepts must compile to Opcode_Spawn
+    and run: functions of the entry module (also event / pub functions, functions extracting singletons, functions defined
+    further down), functions imported from a code module; as a statement, let-bound, as a list element / object field /
+    operand, inside function literals, try, loops, match arms, nested spawns. The first block holds the shapes that the
+    analyzer has to REJECT (a function value is no function of the program: the compiler cannot spawn it; thread handles do
+    not exist: no `join`); a rejected program is skipped by the judge, an accepted one must not take the host down."""
+    W = "fn work(n: int) { println(\"w\", n); }\n"
+    C = "fn calc(n: int) -> int { n * 2 }\n"
+    out = [
+        # ---- must be rejected (crashed the compiler / the VM / both backends when they were accepted)
+        W + "fn main() { let f = work; spawn f(3); }",
+        W + "fn run(f: fn(n: int) -> null) { spawn f(1); }\nfn main() { run(work); }",
+        "fn main() { let f = fn(n: int) { println(n); }; spawn f(1); }",
+        W + "fn main() { let work = fn(n: int) { println(n); }; spawn work(1); }",
+        W + "fn main() { let g = fn() { let w = work; spawn w(1); }; g(); }",
+        W + "fn mk() -> fn(n: int) -> null { work }\nfn main() { let f = mk(); spawn f(2); }",
+        "fn main() { spawn println(1); }",
+        "fn main() { spawn print(1, 2); println(\"after\"); }",
+        "fn main() { let h = spawn println(1); }",
+        "fn main() { for i in 0..3 { spawn println(i); } }",
+        "fn main() { spawn debug(1); }",
+        "fn main() { spawn throw(\"x\"); }",
+        "fn main() { try { spawn throw(\"x\"); } catch e { println(e.message); } }",
+        "fn main() { spawn fmt(\"%d\", 1); }",
+        "import { ping } from net;\nfn main() { spawn ping(\"localhost\", 1.0); }",
+        "import { assert_eq } from testing;\nfn main() { spawn assert_eq(1, 1); }",
+        W + "fn main() { let h = spawn work(3); h.join(); }",
+        W + "fn main() { let h = spawn work(3); println(h.join); }",
+        W + "fn main() { (spawn work(3)).join(); }",
+        C + "fn main() { let h = spawn calc(3); println(h.join()); }",
+        C + "fn main() { let l = [spawn calc(1), spawn calc(2)]; for h in l { println(h.join()); } }",
+        C + "fn main() { let o = new { h: spawn calc(1) }; println(o.h.join() + 1); }",
+        C + "fn wait(h: { join: fn() -> int }) -> int { h.join() }\nfn main() { println(wait(spawn calc(2))); }",
+        ("import { fv } from lib;\nfn main() { let f = fv(); spawn f(1); }", {"lib": "pub fn fv() -> fn(n: int) -> null { fn(n: int) { println(n); } }\nfn main() { }"}, None),
+        ("import { helper } from lib;\nfn main() { let g = helper; spawn g(1); }", {"lib": "pub fn helper(n: int) { println(\"lib\", n); }\nfn main() { }"}, None),
+        ("import { helper } from lib;\nfn main() { let helper = fn(n: int) { println(n); }; spawn helper(1); }",
+         {"lib": "pub fn helper(n: int) { println(\"lib\", n); }\nfn main() { }"}, None),
+        ("import { helper } from lib;\nfn main() { let h = spawn helper(1); h.join(); }", {"lib": "pub fn helper(n: int) { println(\"lib\", n); }\nfn main() { }"}, None),
+        # ---- accepted shapes
+        W + "fn main() { spawn work(1); }",
+        W + "fn main() { spawn work(1); spawn work(2); spawn work(3); println(\"main\"); }",
+        "fn main() { spawn later(1); }\nfn later(n: int) { println(n); }",
+        W + "fn main() { let h = spawn work(1); let k: null = h; println(\"bound\"); }",
+        C + "fn main() { spawn calc(1); let h = spawn calc(2); println(\"dropped\"); }",
+        W + "fn main() { let l = [spawn work(1), spawn work(2)]; println(l.len()); let o = new { a: spawn work(3) }; println(o.a == null); }",
+        W + "fn main() { println(spawn work(1) == null); if spawn work(2) == null { println(\"null\"); } }",
+        W + "fn main() { let g = fn() { spawn work(1); }; g(); g(); }",
+        W + "fn main() { let g = fn(k: int) { for i in 0..k { spawn work(i); } }; g(3); }",
+        W + "fn main() { try { spawn work(1); throw(\"after spawn\"); } catch e { println(e.message); spawn work(2); } }",
+        W + "fn main() { for i in 0..4 { spawn work(i); } let i = 0; while i < 3 { spawn work(10 + i); i += 1; } loop { spawn work(20); break; } }",
+        W + "fn main() { for i in 0..40 { spawn work(i); } }",
+        W + "fn main() { for i in 0..3 { if i == 1 { continue; } spawn work(i); } }",
+        W + "fn main() { let x = match 1 { 1 => spawn work(1), _ => spawn work(2) }; let y = if true { spawn work(3) } else { spawn work(4) }; println(x == y); }",
+        W + "fn main() { let a = 5; spawn work(a); a = 6; spawn work(a + 1); }",
+        "fn show(l: [int], o: { a: str }, p: ?int, r: range, s: str, f: float, b: bool) { println(l, o, p, r, s, f, b); }\n"
+        "fn main() { let l = [1, 2]; let o = new { a: \"x\" }; spawn show(l, o, ?3, 1..4, \"s\", 1.5, true); l.push(3); o.a = \"y\"; println(l, o); }",
+        "fn big(l: [[int]]) { println(l.len()); }\nfn main() { let l: [[int]] = []; for i in 0..20 { l.push([i, i]); } spawn big(l); spawn big(l); }",
+        "fn any(o: { ? }) { println(o.keys()); }\nfn main() { let o = new { ? }; o.set(\"k\", 1); spawn any(o); o.set(\"j\", 2); }",
+        "fn down(n: int) { println(n); if n > 0 { spawn down(n - 1); } }\nfn main() { spawn down(4); }",
+        "fn leaf(n: int) { println(\"leaf\", n); }\nfn mid(n: int) { spawn leaf(n); spawn leaf(n + 1); }\nfn main() { spawn mid(1); spawn mid(10); }",
+        "fn boom(n: int) { println(1 / n); }\nfn main() { spawn boom(0); println(\"main goes on\"); }",
+        "fn boom(n: int) { throw(\"in the spawned core\"); }\nfn main() { spawn boom(0); spawn boom(1); }",
+        "fn boom(l: [int]) { println(l[5]); }\nfn main() { try { spawn boom([1]); } catch e { println(\"not caught here\"); } }",
+        "fn deep(n: int) -> int { deep(n + 1) }\nfn main() { spawn deep(0); println(\"main\"); }",
+        "fn spin(n: int) { let i = 0; while i < n { i += 1; } println(i); }\nfn main() { spawn spin(2000); spawn spin(10); }",
+        "let g = 0;\nfn bump(n: int) { g += n; }\nfn main() { spawn bump(1); spawn bump(2); println(\"main\"); }",
+        "event fn ev(a: int) { println(\"ev\", a); }\nfn main() { spawn ev(3); let h = spawn ev(4); }",
+        "pub fn helper(n: int) { println(n); }\nfn main() { spawn helper(3); }",
+        "$Lamp = { lvl: int };\nfn dim(lamp: $Lamp, p: int) { lamp.lvl = p; println(lamp.lvl); }\nfn main() { spawn dim(3); let h = spawn dim(4); }",
+        "import { templ FooFeature } from templates;\n$Lamp = { power: bool, lvl: int };\nimpl FooFeature with { light } for $Lamp {\n"
+        "    fn dim(self: $Lamp, percent: int) -> bool { self.lvl = percent; percent > 50 }\n}\nfn main() { spawn dim(70); let h = spawn dim(10); println(\"main\"); }",
+        "import { trigger minute } from triggers;\n#[trigger on minute(1)]\nevent fn cb(elapsed: int) { println(\"cb\", elapsed); }\nfn main() { spawn cb(5); }",
+        "fn none_ret() -> ?int { none }\nfn f_ret() -> fn() -> int { fn() -> int { 1 } }\nfn main() { spawn none_ret(); spawn f_ret(); let h = spawn f_ret(); }",
+        "fn never(n: int) -> int { throw(\"never\") }\nfn main() { spawn never(1); println(\"main\"); }",
+        # a spawn as the value of a block / function body (null-typed, like the zone of V28: no crash expected, only residue)
+        W + "fn g() { spawn work(1) }\nfn main() { g(); }",
+        W + "fn main() { { spawn work(1) }; (spawn work(2)); if true { spawn work(3) } }",
+        # imported functions: spawned from the entry module, spawning inside the imported module, two imports deep
+        ("import helper from lib;\nfn main() { spawn helper(1); let h = spawn helper(2); }", {"lib": "pub fn helper(n: int) { println(\"lib\", n); }\nfn main() { }"}, None),
+        ("import { helper, val } from lib;\nfn main() { spawn helper(val); for i in 0..3 { spawn helper(i); } let g = fn() { spawn helper(9); }; g(); }",
+         {"lib": "pub let val = 5;\npub fn helper(n: int) { println(\"lib\", n, val); }\nfn main() { }"}, None),
+        ("import { fan } from lib;\nfn main() { fan(3); spawn fan(2); }",
+         {"lib": "fn leaf(n: int) { println(\"leaf\", n); }\npub fn fan(n: int) { for i in 0..n { spawn leaf(i); } }\nfn main() { }"}, None),
+        ("import { outer } from a;\nfn main() { spawn outer(1); }",
+         {"a": "import { inner } from b;\npub fn outer(n: int) { spawn inner(n + 1); inner(n); }\nfn main() { }", "b": "pub fn inner(n: int) { println(\"inner\", n); }\nfn main() { }"}, None),
+        ("import { dim, level } from dev;\nfn main() { spawn dim(20); println(level() >= 0); }",
+         {"dev": "$Lamp = { lvl: int };\npub fn dim(lamp: $Lamp, p: int) { lamp.lvl = p; }\npub fn level(lamp: $Lamp) -> int { lamp.lvl }\nfn main() { }"}, None),
+        ("import { ev } from lib;\nfn own(n: int) { println(\"own\", n); }\nfn main() { spawn ev(1); spawn own(2); }", {"lib": "pub fn ev(a: int) { println(\"ev\", a); }\nfn main() { }"}, None),
+    ]
     return out
